@@ -417,6 +417,8 @@ class LifecycleWorld(World):
                 with ctx.impl("trainer step", dict(facts, trainer="t1", after=last, mstdpet_overlap=overlap())) as reg:
                     ca = A.call_trainer("t1")
                     cb = Bc.call_trainer("t1")
+                if reg.waived:
+                    return      # a recorded known finding stopped the trainer step: the run ends here
                 if not reg.waived:
                     ctx.judged += 1
                     for (pa, na), (pb, nb) in zip(ca, cb):
